@@ -245,6 +245,8 @@ fn ringbuffer(ctx: &mut Ctx, cap: usize, nops: usize) {
 }
 
 // (b) read_header_and_body
+/// read_header_and_body on received bytes of every shape (also run under C19: a delivery exposes exactly the packet's bytes)
+pub fn run_read_header(ctx: &mut Ctx) { ctx.tr.scenario("c17-read-header"); let n = ctx.budget(400, 10); read_header(ctx, n); }
 fn read_header(ctx: &mut Ctx, cases: u64) {
     for _ in 0..cases {
         let total = match ctx.rng.below(8) { 0 => ctx.rng.below(44) as usize, 1 => 43, 2 => 44, 3 => 45, 4 => 512, _ => 44 + ctx.rng.below(120) as usize };
@@ -262,6 +264,9 @@ fn read_header(ctx: &mut Ctx, cases: u64) {
             // the fields the crate decoded against the specification's layout of the same bytes
             let mut m: Vec<u128> = h.iter().map(|x| *x as u128).collect(); m.extend(b128(&b[..44]));
             ctx.tr.line(1767, &m, &[1]);
+            // C19 (kind 1952): the body handed on is exactly the packet's payload: header.len bytes, the bytes after the header
+            let same = body[..] == b[44..44 + body.len().min(b.len() - 44)];
+            ctx.tr.line(1952, &[h[4] as u128, body.len() as u128, same as u128], &[1]);
             ctx.tr.note("rhb_ok");
         } else { ctx.tr.note("rhb_refused"); }
         ctx.tr.line(1711, &b128(&b), &o);
